@@ -60,8 +60,7 @@ Qed.
 (* ---- fillMissingPackets ---- *)
 Lemma last_sn_newest q d : last_sn q d = newest q d.
 Proof.
-  unfold last_sn. induction q as [|p q IH] using rev_ind; [reflexivity|].
-  rewrite rev_app_distr, newest_app. reflexivity.
+  reflexivity.
 Qed.
 
 Lemma fill_loop_skip nchan last q1 q2 sne :
